@@ -263,6 +263,9 @@ def tb2(ctx, R):
                 attr_t = [F for n, F in cand if n is main[0]][0]
                 main_fields[q] = attr_t
             key = "%s::piecewise%s" % (q, "" if not guards else " [%s]" % show(alpha(guards[0]))[:40])
+            if len(main) == 0:
+                R.unrecognised(key, f.where(), "no np.piecewise over the table given as `%s` in the normal form of the conversion: how the pieces are selected was not recognised" % want_param)
+                continue
             if len(main) != 1:
                 R.violation(key, f.where(), "the conversion is not one np.piecewise over the table given as `%s` (found %d)" % (want_param, len(main)))
                 continue
@@ -274,13 +277,20 @@ def tb2(ctx, R):
             ok_f = funcs is not None and funcs[0] == "list" and len(funcs[1]) == 2 and funcs[1][0][0] == "splice" and funcs[1][1] == ("ext", "numpy.nan") and \
                 funcs[1][0][1][0] == "comp" and funcs[1][0][1][3] == attr_t and not funcs[1][0][1][4] and \
                 funcs[1][0][1][1] == ("attr", funcs[1][0][1][2], "apply")
+            if a[0] == x and ok_c and not ok_f and not (funcs is not None and funcs[0] == "list"):
+                # the function list is prepared somewhere else (a field filled by the constructor): not compared
+                R.unrecognised(key, f.where(), "the functions handed to np.piecewise are `%s`, prepared outside the conversion: their order and the NaN default were not compared" % show(alpha(funcs))[:80])
+                continue
             R.check(a[0] == x and ok_c and ok_f, key, f.where(), "np.piecewise(x, [p.within_range(x) for p in pieces], [p.apply for p in pieces] + [nan])",
                     "conditions and functions handed to np.piecewise are not built from %s in the same order with exactly one NaN default: %s" % (attr, show(alpha(m))[:200]))
             # nothing else produces NaN / masks the result
             nans = collect(val, lambda n: n == ("ext", "numpy.nan") or (isinstance(n, tuple) and n and n[0] == "const" and isinstance(n[1], float) and n[1] != n[1]))
             masks = collect(val, lambda n: isinstance(n, tuple) and n and n[0] == "call" and n[1] in ("numpy.where", "numpy.clip", "numpy.full_like", "numpy.ma.masked_outside"))
-            R.check(len(nans) == 1 and not masks, key + " total", f.where(), "np.nan appears once, as the unreachable piecewise default",
-                    "the result can be NaN / masked besides the unreachable piecewise default (`%s`): the conversion is no longer total" % (show(alpha((masks or nans)[-1]))[:80]))
+            if not nans and not masks:
+                R.unrecognised(key + " total", f.where(), "the piecewise default is not in the normal form of the conversion (prepared elsewhere): totality not decided")
+            else:
+                R.check(len(nans) == 1 and not masks, key + " total", f.where(), "np.nan appears once, as the unreachable piecewise default",
+                        "the result can be NaN / masked besides the unreachable piecewise default (`%s`): the conversion is no longer total" % (show(alpha((masks or nans)[-1]))[:80]))
     # --- type K exponential term
     f = prog.func("thermocouples.Thermocouple.celsius_to_mv")
     T = ("param", f.params[1])
@@ -308,6 +318,10 @@ def tb2(ctx, R):
                     inner = ("call", "numpy.square", (("binop", "-", (t, E(2))),), ())
                     want = sy._binop("*", E(0), ("call", "numpy.exp", (sy._binop("*", E(1), inner),), ()))
                     ok = fn[2] == want
+    if not ok and got is None:
+        R.unrecognised("thermocouples.Thermocouple.celsius_to_mv::exponential term", f.where(), "the type K exponential term was not found as a second np.piecewise added to the polynomial "
+                       "(it may live in a helper object): its formula is not decided")
+        return
     R.check(ok, "thermocouples.Thermocouple.celsius_to_mv::exponential term", f.where(), "a0 * exp(a1 * (t - a2)**2) for t >= 0, else 0, added to the polynomial",
             "the type K exponential term is no longer a0 * exp(a1 * (t - a2)**2) applied for t >= 0 only (%s)" % (show(alpha(got))[:200] if got else "not found"))
 
